@@ -170,33 +170,110 @@ func checkMinInputSizeConstantsByKind(c *Ctx, rule string) {
 		return out
 	}
 	n := 0
-	for _, b := range fn.Blocks {
-		for _, ins := range b.Instrs {
-			ph, ok := ins.(*ssa.Phi)
-			if !ok {
-				continue
+	judge := func(tk string, k int64, what string, pos token.Pos) {
+		n++
+		_, okv := vals[tk][k]
+		if tk == "NestedP2WPKH" && !okv {
+			// the witness of a nested P2WPKH input is the P2WPKH witness
+			if nm, isW := vals["P2WPKH"][k]; isW && strings.Contains(nm, "Witness") {
+				okv = true
 			}
-			for i, e := range ph.Edges {
-				k, isK := constInt(e)
-				if !isK {
-					continue
-				}
-				for _, tk := range kindsInto(b.Preds[i], 0) {
-					n++
-					_, okv := vals[tk][k]
-					if tk == "NestedP2WPKH" && !okv {
-						// the witness of a nested P2WPKH input is the P2WPKH witness
-						if nm, isW := vals["P2WPKH"][k]; isW && strings.Contains(nm, "Witness") {
-							okv = true
+		}
+		var names []string
+		for _, nm := range vals[tk] {
+			names = append(names, nm)
+		}
+		sort.Strings(names)
+		c.Check(rule, "min-input-size-constant-of-its-kind:"+tk+"/"+what, pos, okv,
+			fmt.Sprintf("GetMinInputVirtualSize selects %d for %s on the arm its %s predicate leads to, which is none of that kind's constants (%s): the minimum size of such an input is wrong and the coin selector's \"does this coin pay for itself\" test drops coins that do (or keeps coins that do not)", k, what, tk, strings.Join(names, ", ")))
+	}
+	for _, f := range p.regionOf(fn) {
+		for _, b := range f.Blocks {
+			for _, ins := range b.Instrs {
+				switch x := ins.(type) {
+				case *ssa.Phi:
+					// form 1: one variable per quantity, assigned on the arms
+					for i, e := range x.Edges {
+						if k, isK := constInt(e); isK {
+							for _, tk := range kindsInto(b.Preds[i], 0) {
+								judge(tk, k, x.Comment, e.Pos())
+							}
 						}
 					}
-					var names []string
-					for _, nm := range vals[tk] {
-						names = append(names, nm)
+				case *ssa.Call:
+					// form 4: the quantities of the kind handed to a part of the package right on the arm
+					if h := x.Call.StaticCallee(); h != nil && h.Pkg == fn.Pkg {
+						for ai, a := range x.Call.Args {
+							if k, isK := constInt(a); isK {
+								for _, tk := range kindsInto(b, 0) {
+									judge(tk, k, fmt.Sprintf("argument %d of %s", ai, h.Name()), x.Pos())
+								}
+							}
+						}
 					}
-					sort.Strings(names)
-					c.Check(rule, "min-input-size-constant-of-its-kind:"+tk+"/"+ph.Comment, e.Pos(), okv,
-						fmt.Sprintf("GetMinInputVirtualSize selects %d for %s on the arm its %s predicate leads to, which is none of that kind's constants (%s): the minimum size of such an input is wrong and the coin selector's \"does this coin pay for itself\" test drops coins that do (or keeps coins that do not)", k, ph.Comment, tk, strings.Join(names, ", ")))
+				case *ssa.Return:
+					// form 2: a part that returns the quantities of the kind from the arm itself
+					for ri := range x.Results {
+						if k, isK := constInt(effectiveResult(x, ri)); isK {
+							for _, tk := range kindsInto(b, 0) {
+								judge(tk, k, fmt.Sprintf("result %d", ri), x.Pos())
+							}
+						}
+					}
+				}
+			}
+		}
+	}
+	// form 3: a table of {predicate, quantities} entries (a package-level composite literal: its stores are in init)
+	if sp := fn.Pkg; sp != nil {
+		if init := sp.Func("init"); init != nil {
+			for _, b := range init.Blocks {
+				for _, ins := range b.Instrs {
+					st, ok := ins.(*ssa.Store)
+					if !ok {
+						continue
+					}
+					var pred *ssa.Function
+					switch v := stripConv(st.Val).(type) {
+					case *ssa.Function:
+						pred = v
+					case *ssa.MakeClosure:
+						pred, _ = v.Fn.(*ssa.Function)
+					}
+					if pred == nil {
+						continue
+					}
+					tk, isKind := token2[pred.Name()]
+					if _, isFA := st.Addr.(*ssa.FieldAddr); !isKind || !isFA {
+						continue
+					}
+					// the entry: the element behind the (possibly nested) field addresses
+					entryOf := func(a ssa.Value) ssa.Value {
+						for {
+							fa, ok := a.(*ssa.FieldAddr)
+							if !ok {
+								return a
+							}
+							a = fa.X
+						}
+					}
+					entry := entryOf(st.Addr)
+					for _, b2 := range init.Blocks {
+						for _, i2 := range b2.Instrs {
+							st2, ok := i2.(*ssa.Store)
+							if !ok || st2 == st {
+								continue
+							}
+							fa2, ok := st2.Addr.(*ssa.FieldAddr)
+							if !ok || entryOf(fa2) != entry {
+								continue
+							}
+							if k, isK := constInt(st2.Val); isK {
+								_, fname := fieldAddrName(fa2)
+								judge(tk, k, fname, st2.Pos())
+							}
+						}
+					}
 				}
 			}
 		}
@@ -239,9 +316,11 @@ func checkFeeProductOverflowGuard(c *Ctx, rule string) {
 			}
 		}
 	}
-	for _, b := range fn.Blocks {
-		if iff, ok := b.Instrs[len(b.Instrs)-1].(*ssa.If); ok {
-			walk(iff.Cond, 0)
+	for _, f := range p.regionOf(fn) {
+		for _, b := range f.Blocks {
+			if iff, ok := b.Instrs[len(b.Instrs)-1].(*ssa.If); ok {
+				walk(iff.Cond, 0)
+			}
 		}
 	}
 	c.Check(rule, "fee-product-overflow-guarded", fn.Pos(), found,
@@ -314,80 +393,98 @@ func checkRowFieldReadsAtDistinctOffsets(c *Ctx, rule string, pkg string) {
 // never with the other branch's.
 func checkNextIndexGuardsStayOnTheirBranch(c *Ctx, rule string) {
 	p := c.P
-	fn := p.Func("waddrmgr", "", "putChainedAddress")
-	if fn == nil {
+	if p.Func("waddrmgr", "", "putChainedAddress") == nil {
 		c.Unresolved(rule, "waddrmgr.putChainedAddress")
 		return
+	}
+	isTok := func(s string) bool { return s == "nextExternalIndex" || s == "nextInternalIndex" }
+	// the stored index a value stands for: the row's field, or a part's parameter that carries it (by its name)
+	tokOf := func(v ssa.Value) string {
+		v = stripConv(v)
+		if _, f, _, ok := fieldOf(v); ok && isTok(f) {
+			return f
+		}
+		if u, ok := v.(*ssa.UnOp); ok && u.Op == token.MUL {
+			if _, f, _, ok := fieldOf(u.X); ok && isTok(f) {
+				return f
+			}
+		}
+		if prm, ok := v.(*ssa.Parameter); ok && isTok(prm.Name()) {
+			return prm.Name()
+		}
+		return ""
 	}
 	fieldTok := func(v ssa.Value) map[string]bool {
 		out := map[string]bool{}
 		for _, o := range (&Slicer{P: p, ThroughBinOp: true, ThroughDeref: true}).Origins(v) {
-			if _, f, _, ok := fieldOf(o); ok && (f == "nextExternalIndex" || f == "nextInternalIndex") {
-				out[f] = true
+			if t := tokOf(o); t != "" {
+				out[t] = true
 			}
 		}
 		return out
 	}
 	n := 0
-	for _, b := range fn.Blocks {
-		for _, ins := range b.Instrs {
-			ph, ok := ins.(*ssa.Phi)
-			if !ok {
-				continue
-			}
-			// the variable: some edge is the stored index itself
-			own := ""
-			for _, e := range ph.Edges {
-				if _, f, _, ok := fieldOf(stripConv(e)); ok && (f == "nextExternalIndex" || f == "nextInternalIndex") {
-					own = f
+	for _, fn := range p.FuncsIn("waddrmgr") {
+		for _, b := range fn.Blocks {
+			for _, ins := range b.Instrs {
+				ph, ok := ins.(*ssa.Phi)
+				if !ok {
+					continue
 				}
-				if u, ok := stripConv(e).(*ssa.UnOp); ok && u.Op == token.MUL {
-					if _, f, _, ok := fieldOf(u.X); ok && (f == "nextExternalIndex" || f == "nextInternalIndex") {
-						own = f
+				// the variable: some edge is the stored index itself, another one the index being recorded plus one
+				own, bumped := "", false
+				for _, e := range ph.Edges {
+					if t := tokOf(e); t != "" {
+						own = t
 					}
-				}
-			}
-			if own == "" {
-				continue
-			}
-			n++
-			// conditions between the phi's dominator and its edges
-			dom := b.Idom()
-			var bad []string
-			seen := map[*ssa.BasicBlock]bool{}
-			var up func(x *ssa.BasicBlock)
-			up = func(x *ssa.BasicBlock) {
-				if x == nil || seen[x] {
-					return
-				}
-				seen[x] = true
-				if iff, ok := x.Instrs[len(x.Instrs)-1].(*ssa.If); ok {
-					inner, _ := unwrapNot(iff.Cond)
-					if bo, ok := inner.(*ssa.BinOp); ok {
-						for f := range fieldTok(bo.X) {
-							if f != own {
-								bad = append(bad, f)
-							}
-						}
-						for f := range fieldTok(bo.Y) {
-							if f != own {
-								bad = append(bad, f)
-							}
+					if bo, ok := stripConv(e).(*ssa.BinOp); ok && bo.Op == token.ADD {
+						if k, isK := constInt(bo.Y); isK && k == 1 {
+							bumped = true
 						}
 					}
 				}
-				if x == dom {
-					return
+				if own == "" || !bumped {
+					continue
 				}
-				for _, pr := range x.Preds {
+				n++
+				// conditions between the phi's dominator and its edges
+				dom := b.Idom()
+				var bad []string
+				seen := map[*ssa.BasicBlock]bool{}
+				var up func(x *ssa.BasicBlock)
+				up = func(x *ssa.BasicBlock) {
+					if x == nil || seen[x] {
+						return
+					}
+					seen[x] = true
+					if iff, ok := x.Instrs[len(x.Instrs)-1].(*ssa.If); ok {
+						inner, _ := unwrapNot(iff.Cond)
+						if bo, ok := inner.(*ssa.BinOp); ok {
+							for f := range fieldTok(bo.X) {
+								if f != own {
+									bad = append(bad, f)
+								}
+							}
+							for f := range fieldTok(bo.Y) {
+								if f != own {
+									bad = append(bad, f)
+								}
+							}
+						}
+					}
+					if x == dom {
+						return
+					}
+					for _, pr := range x.Preds {
+						up(pr)
+					}
+				}
+				for _, pr := range b.Preds {
 					up(pr)
 				}
+				c.Check(rule, "next-index-guard-stays-on-its-branch:"+own, ph.Pos(), len(bad) == 0,
+					"putChainedAddress decides whether the stored "+own+" moves by comparing with the other branch's stored index ("+strings.Join(dedup(bad), ", ")+"): with the other branch ahead the persisted index stays behind the addresses issued, and after a restart the recovery's look-ahead starts too low")
 			}
-			for _, pr := range b.Preds {
-				up(pr)
-			}
-			c.Check(rule, "next-index-guard-stays-on-its-branch:"+own, ph.Pos(), len(bad) == 0,
-				"putChainedAddress decides whether the stored "+own+" moves by comparing with the other branch's stored index ("+strings.Join(dedup(bad), ", ")+"): with the other branch ahead the persisted index stays behind the addresses issued, and after a restart the recovery's look-ahead starts too low")
 		}
 	}
 	c.Floor(rule, "stored next indices merged in putChainedAddress", n, 2)
@@ -461,10 +558,25 @@ func checkStartedFlagMeansHandlerRuns(c *Ctx, rule string) {
 			c.Unresolved(rule, "chain."+recv+".Start")
 			continue
 		}
-		for _, s := range storesToFieldOwner(st, recv, "started") {
-			if k, ok := constBool(s.Val); !ok || !k {
-				continue
+		// the store, or the call of the part of Start that holds it
+		var anchors []ssa.Instruction
+		for _, f := range p.regionOf(st) {
+			for _, s := range storesToFieldOwner(f, recv, "started") {
+				if k, ok := constBool(s.Val); !ok || !k || s.Parent() != f {
+					continue
+				}
+				if f == st {
+					anchors = append(anchors, s)
+					continue
+				}
+				for _, site := range p.realCallers(f) {
+					if site.Parent() == st {
+						anchors = append(anchors, site.(ssa.Instruction))
+					}
+				}
 			}
+		}
+		for _, s := range anchors {
 			n++
 			q := &PathQuery{Fn: s.Parent()}
 			q.Target = func(i ssa.Instruction, via *ssa.BasicBlock) bool {
